@@ -133,7 +133,9 @@ def run(ctx: Ctx):
         ctx.extract(x_fsm.GEN_NAME, x_fsm.emit)
         ctx.extract(x_fsn.GEN_NAME, x_fsn.emit)
         ctx.prove(MODULES, exes=[EXE], clean=False, leanchecker=ctx.thorough)
-    ctx.cov["rule"] = ("case = (surface in {FileSystem.apply_request, Simulation.apply_request under a node, agent-action form_request}, "
+    ctx.cov["rule"] = ("case = (surface in {FileSystem.apply_request, Simulation.apply_request under a node, agent-action form_request, "
+                       "`net` = a computer in a small network driven through sim.pre_timestep/apply_request/apply_timestep with power "
+                       "requests, node scans and start-up/shut-down durations 0..3}, "
                        "folder restore duration in {None,0,1,2,3}, operation sequence); after EVERY operation the response status and the "
                        "whole structure (dictionaries in order, flags, countdowns, routes, counters) are compared with the model and "
                        "C15's own oracle is evaluated on the real objects; a case is non-trivial when at some point an item is in a "
